@@ -184,7 +184,7 @@ func TestVerif_C19(t *testing.T) {
 	idx := int64(0)
 
 	// Part 1: exhaustive reachability of the product state, capacities 1..8.
-	maxCap := 8
+	maxCap := int(c.N(8, 12))
 	for N := 1; N <= maxCap; N++ {
 		type node struct{ ops []byte }
 		seen := map[string]bool{}
@@ -298,7 +298,7 @@ func TestVerif_C19(t *testing.T) {
 
 	// Part 2: random long sequences, capacities up to 64 (and the detector's
 	// usage shape: gap+1 rings with occasional marks).
-	nseq := c.N(400, 20000)
+	nseq := c.N(400, 100000)
 	for s := int64(0); s < nseq; s++ {
 		myIdx := idx
 		idx++
